@@ -176,7 +176,7 @@ fn build(ch: &mut Chooser, fmt: &'static str, thorough: bool) -> PCase {
         // bytes above 0x7F that happen to form well-formed UTF-8: still text in the project's code page
         if cp == 1252 && ch.flag("module-bytes-form-valid-utf8") { src = b"' caf\xc3\xa9 \xd0\xb0\xc2\xa3\r\nSub A()\r\nEnd Sub\r\n".to_vec(); }
         modules.push(VModule { name: names[i].to_string(), stream_name: if ch.flag("stream-name-differs") { format!("Strm{i}") } else { names[i].to_string() }, source: src,
-            text_offset: [0usize, 5, 1000][ch.choose("module-text-offset", 3)], mode: ch.choose("module-compression", 3) as u8, class_module: ch.flag("class-module"), read_only: ch.flag("module-readonly"), private: ch.flag("module-private") });
+            text_offset: [0usize, 5, 1000, 65_536, 70_000][ch.choose("module-text-offset", 5)], mode: ch.choose("module-compression", 3) as u8, class_module: ch.flag("class-module"), read_only: ch.flag("module-readonly"), private: ch.flag("module-private") });
     }
     let nref = ch.choose("reference-count", 4);
     let mut refs = vec![];
@@ -266,7 +266,7 @@ fn run_case(rep: &Report, ch: &mut Chooser, fmt: &'static str, thorough: bool, l
 
 pub fn check(rep: &Report) {
     let t = crate::thorough(&rep.tier);
-    rep.rule("(a) every source over {a,b} of length 1..8 (thorough 12) x every valid tokenisation (literal or any legal copy token at each position) through the real decompressor; for every position p in 1..4095 a chunk whose decompressed prefix has length p followed by copy tokens with offset in {1, p, p/2, 2^(bits-1)} and length in {3, 4, maximum for the bit split}; sources of 0..20000 bytes (low/high/mixed redundancy) compressed greedy / literal-only / raw, 1-5 chunks; (b) project layouts: 0-3 modules x source length x text offset {0,5,1000} x compression mode x stream name != module name x class/readonly/private records x 0-3 references of 5 kinds x compat-version record x code page (thorough: 932) x CFB layout, embedded in xlsm, xlsb and xls; <= 2 (thorough 3) deviations; non-trivial = uses a copy token / non-default layout");
+    rep.rule("(a) every source over {a,b} of length 1..8 (thorough 12) x every valid tokenisation (literal or any legal copy token at each position) through the real decompressor; for every position p in 1..4095 a chunk whose decompressed prefix has length p followed by copy tokens with offset in {1, p, p/2, 2^(bits-1)} and length in {3, 4, maximum for the bit split}; sources of 0..20000 bytes (low/high/mixed redundancy) compressed greedy / literal-only / raw, 1-5 chunks; (b) project layouts: 0-3 modules x source length x text offset {0,5,1000} x compression mode x stream name != module name x class/readonly/private records x 0-3 references of 5 kinds x compat-version record x code page (thorough: 932) x CFB layout, embedded in xlsm, xlsb and xls; <= 2 (thorough 4) deviations; non-trivial = uses a copy token / non-default layout");
     rep.assume("MODULENAMEUNICODE and the other optional unicode records are always written; library ids are well-formed (at least two '#')");
     sweep_tokenisations(rep, if t { 12 } else { 8 });
     sweep_positions(rep);
@@ -276,7 +276,7 @@ pub fn check(rep: &Report) {
         crate::engine::crumb::set_job(&format!("C18 project layouts format={fmt}"));
         let mut st = Stats::default();
         let mut local = vec![];
-        explore_deviations(|ch| run_case(rep, ch, fmt, t, &mut local), if t { 3 } else { 2 }, &mut st);
+        explore_deviations(|ch| run_case(rep, ch, fmt, t, &mut local), if t { 4 } else { 2 }, &mut st);
         rep.cases_bulk(&local);
         stats.lock().unwrap().merge(&st);
         crate::engine::crumb::clear();
